@@ -4,6 +4,7 @@ import DaskModel.Model.BlockScan
 import DaskModel.Model.Percentile
 import DaskModel.Model.Masked
 import DaskModel.Model.RandomKeys
+import DaskModel.Model.Contraction
 open Dask
 
 namespace ReduceDriver
@@ -256,6 +257,36 @@ def hChoiceGuard : Handler := handler fun args =>
     | none => pure (.list [.sym "raised"])
   | _ => none
 
+/-! ### C31 -/
+open Dask.Contraction in
+/-- `(contract (cs…) (a…) (b…))` ↦ `((terms…) total full)`: per-block partial dots, their sum, the unblocked dot -/
+def hContract : Handler := handler fun args =>
+  match args with
+  | [cs, a, b] => do
+    let cs ← cs.toNats?
+    let a ← a.toInts?
+    let b ← b.toInts?
+    let f := fun l => a.getD l 0 * b.getD l 0
+    let terms := dotBlocks a b cs
+    pure (.list [SExp.ofInts terms, .int (lsum terms), .int (sumTo (cs.foldl (· + ·) 0) f)])
+  | _ => none
+
+open Dask.Contraction in
+/-- `(stackgroups (chunks…) cc crmax)` ↦ `(((idx m_r)…)…)` -/
+def hStackGroups : Handler := handler fun args =>
+  match args with
+  | [chunks, cc, crmax] => do
+    let g := stackGroups (← chunks.toNats?) (← cc.toNat?) (← crmax.toNat?)
+    pure (.list (g.map fun grp => .list (grp.map fun (i, m) => SExp.ofNats [i, m])))
+  | _ => none
+
+open Dask.Contraction in
+/-- `(cumsumblocks (xs…))` ↦ `((start stop)…)` -/
+def hCumsumBlocks : Handler := handler fun args =>
+  match args with
+  | [xs] => do pure (.list ((cumsumBlocks 0 (← xs.toNats?)).map fun (a, b) => SExp.ofNats [a, b]))
+  | _ => none
+
 end ReduceDriver
 
 def table : List (String × Handler) := [
@@ -265,6 +296,7 @@ def table : List (String × Handler) := [
   ("mergepct", ReduceDriver.hMergePct),
   ("mareduce", ReduceDriver.hMaReduce), ("mazip", ReduceDriver.hMaZip), ("mascan", ReduceDriver.hMaScan),
   ("mafilled", ReduceDriver.hMaFilled), ("mawhere", ReduceDriver.hMaWhere),
-  ("rngcalls", ReduceDriver.hRngCalls), ("rscalls", ReduceDriver.hRsCalls), ("choiceguard", ReduceDriver.hChoiceGuard)]
+  ("rngcalls", ReduceDriver.hRngCalls), ("rscalls", ReduceDriver.hRsCalls), ("choiceguard", ReduceDriver.hChoiceGuard),
+  ("contract", ReduceDriver.hContract), ("stackgroups", ReduceDriver.hStackGroups), ("cumsumblocks", ReduceDriver.hCumsumBlocks)]
 
 def main : IO Unit := runDriver table
